@@ -132,11 +132,35 @@ static void use_full(struct tres *r, int desc, int be, int k, int m, int hd, int
     liberasurecode_encode_cleanup(desc, ed, ep);
 }
 static int pre_desc[2];
-static void b_use_rs0(struct tres *r) { use_full(r, pre_desc[0], RS_, 3, 3, 3, 2); }
+/* one stripe encoded by main before the threads start; the threads decode and reconstruct from these very buffers (sharing inputs
+ * read-only is what any caller may do), so a library write to an input fragment is a conflicting access */
+static char **shared_ed, **shared_ep; static uint64_t shared_fl; static uint8_t shared_data[256]; static size_t shared_len;
+static void use_shared(struct tres *r, int desc, int be, int k, int m, int hd)
+{
+    if (!shared_ed) return;
+    int n = k + m, tol = be == XR_ ? hd - 1 : m; char *F[32]; for (int i = 0; i < n; i++) F[i] = i < k ? shared_ed[i] : shared_ep[i - k];
+    static const unsigned ES[] = { 0x1, 0x7, 0xb, 0x3 };
+    for (unsigned e = 0; e < 4; e++) {
+        unsigned E = ES[e]; if (__builtin_popcount(E) > tol || (E >> k)) continue;
+        char *lst[40]; int nf = 0; for (int i = 0; i < n; i++) if (!(E >> i & 1)) lst[nf++] = F[i];
+        char *out = NULL; uint64_t ol = 0;
+        int rc = liberasurecode_decode(desc, lst, nf, shared_fl, 0, &out, &ol);
+        r->h = mix(r->h, &rc, sizeof rc);
+        if (rc == 0) { r->h = mix(r->h, out, ol); if (ol != shared_len || memcmp(out, shared_data, shared_len)) { r->bad = 1; snprintf(r->what, sizeof r->what, "decode of the shared stripe E=0x%x returned wrong data", E); } liberasurecode_decode_cleanup(desc, out); }
+        else { r->bad = 1; snprintf(r->what, sizeof r->what, "decode of the shared stripe E=0x%x returned %d", E, rc); }
+        char *ob = malloc(shared_fl);
+        rc = liberasurecode_reconstruct_fragment(desc, lst, nf, shared_fl, 0, ob);
+        r->h = mix(r->h, &rc, sizeof rc);
+        if (rc == 0) { if (memcmp(ob, F[0], shared_fl)) { r->bad = 1; snprintf(r->what, sizeof r->what, "reconstruct from the shared stripe E=0x%x returned wrong bytes", E); } }
+        else { r->bad = 1; snprintf(r->what, sizeof r->what, "reconstruct from the shared stripe E=0x%x returned %d", E, rc); }
+        free(ob);
+    }
+}
+static void b_use_rs0(struct tres *r) { use_full(r, pre_desc[0], RS_, 3, 3, 3, 2); use_shared(r, pre_desc[0], RS_, 3, 3, 3); }
 static void b_use_rs1(struct tres *r) { use_full(r, pre_desc[1], RS_, 3, 3, 3, 2); }
-static void b_use_xor0(struct tres *r) { use_full(r, pre_desc[0], XR_, 6, 6, 4, 4); }
+static void b_use_xor0(struct tres *r) { use_full(r, pre_desc[0], XR_, 6, 6, 4, 4); use_shared(r, pre_desc[0], XR_, 6, 6, 4); }
 static void b_use_xor1(struct tres *r) { use_full(r, pre_desc[1], XR_, 6, 6, 4, 4); }
-static void b_use_isa0(struct tres *r) { use_full(r, pre_desc[0], EC_BACKEND_ISA_L_RS_VAND, 3, 3, 3, 1); }
+static void b_use_isa0(struct tres *r) { use_full(r, pre_desc[0], EC_BACKEND_ISA_L_RS_VAND, 3, 3, 3, 1); use_shared(r, pre_desc[0], EC_BACKEND_ISA_L_RS_VAND, 3, 3, 3); }
 static void b_use_isa1(struct tres *r) { use_full(r, pre_desc[1], EC_BACKEND_ISA_L_RS_VAND, 3, 3, 3, 1); }
 static void b_use_cau0(struct tres *r) { use_full(r, pre_desc[0], EC_BACKEND_ISA_L_RS_CAUCHY, 3, 3, 3, 1); }
 static void own_cycle(struct tres *r, int be, int k, int m, int hd, int wbytes)
@@ -206,6 +230,11 @@ static void run_once(const struct driver *d, struct sched_trace *tr, const unsig
     if (d->pre_shared) shared_desc = mk(RS, 2, 1, 1);
     if (d->pre_doomed) doomed_desc = mk(RS, 2, 1, 1);
     if (d->pre_be) for (int i = 0; i <= d->pre_two; i++) { pre_desc[i] = mk(d->pre_be, d->pre_k, d->pre_m, d->pre_hd); if (pre_desc[i] <= 0) { fprintf(stderr, "driver %s: cannot create its instance\n", d->name); _exit(2); } }
+    shared_ed = shared_ep = NULL;
+    if (d->pre_be && !d->pre_two) {
+        int wb = d->pre_be == RS_ ? 2 : d->pre_be == XR_ ? 4 : 1; shared_len = (size_t)(2 * d->pre_k * wb + 5); memset(shared_data, 0x5a, sizeof shared_data); vh_fill(shared_data, shared_len, PAT_RAMP);
+        if (liberasurecode_encode(pre_desc[0], (char *)shared_data, shared_len, &shared_ed, &shared_ep, &shared_fl)) { fprintf(stderr, "driver %s: cannot encode the shared stripe\n", d->name); _exit(2); }
+    }
     sched_init(tr, prefix, nprefix, d->nthreads);
     pthread_t th[SCHED_MAXT]; struct targ ta[SCHED_MAXT];
     for (int i = 0; i < d->nthreads; i++) { ta[i].d = d; ta[i].tid = i; RES[i].h = 1469598103934665603ull; pthread_create(&th[i], NULL, thread_main, &ta[i]); }
@@ -221,6 +250,7 @@ static void run_once(const struct driver *d, struct sched_trace *tr, const unsig
     }
     if (d->post_destroy_kept) for (int i = 0; i < d->nthreads; i++) for (int j = 0; j < RES[i].ndesc; j++) { int rc = liberasurecode_instance_destroy(RES[i].descs[j]); if (rc) vh_violation("result-differs-from-sequential", "destroy of descriptor %d after the join returned %d", RES[i].descs[j], rc); }
     if (d->pre_shared) { struct tres r; memset(&r, 0, sizeof r); use(&r, shared_desc, 2, 1, 2, 1); if (r.bad) vh_violation("result-differs-from-sequential", "shared instance after the join: %s", r.what); liberasurecode_instance_destroy(shared_desc); }
+    if (shared_ed) { liberasurecode_encode_cleanup(pre_desc[0], shared_ed, shared_ep); shared_ed = shared_ep = NULL; }
     if (d->pre_be) for (int i = 0; i <= d->pre_two; i++) { int rc = liberasurecode_instance_destroy(pre_desc[i]); if (rc) vh_violation("result-differs-from-sequential", "destroy of the pre-created instance after the join returned %d", rc); }
     if (active_instances.slh_first) vh_violation("registry-not-empty", "registry not empty after every instance was destroyed");
     if (log_table) vh_violation("tables-not-released", "GF tables still allocated after the last instance was destroyed");
